@@ -927,6 +927,12 @@ func (g *gen) pickKnobs() Knobs {
 	if pf.Prop == "C15" && !k.ForceFlush {
 		k.CacheOnly = true
 	}
+	if g.r.Chance(0.2) {
+		k.BiasKey = []uint32{200, 250, 65500, 65530, 16777190, 1<<31 - 40, 1 << 20}[g.r.Intn(7)]
+	}
+	if g.r.Chance(0.2) {
+		k.BiasLSN = []uint64{230, 65500, 65530, 16777190, 1<<32 - 60, 1<<32 - 5, 1 << 40, 1<<31 - 30}[g.r.Intn(8)]
+	}
 	if len(pf.FlushMargins) > 0 {
 		k.FlushMargin = pf.FlushMargins[g.r.Intn(len(pf.FlushMargins))]
 	}
